@@ -107,7 +107,7 @@ def run(run):
     n1 = 12 if quick else len(EXPRS)
     e1s = [EXPRS[(i * 3 + run.seed) % len(EXPRS)] for i in range(n1)] if quick else EXPRS
     e2s = ['nosuch(a)', 'sort_by(a, &b)', 'a[::0]', 'a[*].b', 'abs(a)'] if quick else ['nosuch(a)', 'sort_by(a, &b)', 'a[::0]', 'a[*].b', 'abs(a)', 'max_by(a, &b)', 'map(&b, a)', '[a b', 'a.b']
-    jobs = [(e1, e2, 2, dl) for e1 in e1s for e2 in e2s]
+    jobs = [(e1, e2, 1 if '==' in e1 or 'contains' in e1 else 2, dl) for e1 in e1s for e2 in e2s]
     run.bounds = {'call sequences': f'compile(e1); search(d1); compile(e2); search(d2) [may fail midway]; compile(e1) again; clone; search(d1) twice -- for {len(e1s)} x {len(e2s)} expression pairs (core forms and built-ins), '
                                     'documents d1 depth 2 / d2 depth 1 lazily symbolic; through the crate-level compile() (DEFAULT_RUNTIME lazy static, initialised on the path) and Expression::search',
                   'state model': 'statics are per-path persistent cells (initialiser MIR run once), the runtime is shared by all calls of the path, input document cells are frozen after the first search'}
